@@ -40,3 +40,8 @@ Theorem HandlerGen_lock_sites : lock_sites_alpha = lock_sites_expected.
 Proof. vm_compute. reflexivity. Qed.
 Theorem HandlerGen_locks_released : locks_released = true.
 Proof. vm_compute. reflexivity. Qed.
+
+(** C04 (Server/OpenPar.v): tlopen.handle takes the fidRef's openMu (released by defer) before it reads
+    [opened] and before it calls File.Open -- the lock-first order [open_once_interleaved] is about *)
+Theorem tlopen_locks_before_guards : tlopen_lock_first_in handler_traces_alpha = true.
+Proof. vm_compute. reflexivity. Qed.
